@@ -1,11 +1,15 @@
 import Mouette.Model.Proto
 import Mouette.Model.Prepare
+import Mouette.Lemmas.C02Rows
 /-
 Protocol front-end for C02.
   `prep <ce> <cf> <raw|arrays> <inst|direct> <k|N> <once|twice|reprep|rewrap|rewrapinst>
         V <n> (<len> <rat>*)*  E <n> (<a> <b>)*  A <k> (<name> <s|d> <dflt|N> <n> (<i> <v>)*)*
         F <n> (<len> <v>*)*  C <n> (<len> <v>*)*`
-  reply: `cls:<Class>;V:…;E:…;A:…;F:…;FC:…;C:…;CC:…;CF:…` (sections the class has) or an `err:` token.
+        after the build token: `all | numpy | none` = for which uniform row container types the row-typed model
+        `prepareR` (Lemmas/C02Rows) reports the container type of every stored row of the first build
+  reply: `cls:<Class>;V:…;E:…;A:…;F:…;FC:…;C:…;CC:…;CF:…` (sections the class has) or an `err:` token, followed by
+         `;K:<kind>=E<l|t|n per edge>F<… per face>C<… per cell>,…` (or `K:-`).
 -/
 namespace Mouette.DriveC02
 open Mouette.Proto Mouette.Prepare
@@ -41,6 +45,7 @@ structure Req where
   inst : Bool
   k : Option Nat
   build : String
+  kinds : String
   verts : List (List Rat)
   edges : List (Int × Int)
   attrs : List AttrIn
@@ -54,13 +59,14 @@ def req : P Req := do
   let kind ← tok
   let k ← optNat
   let build ← tok
+  let kinds ← tok
   expect "V"; let verts ← listOf (listOf rat)
   expect "E"; let edges ← listOf (do let a ← int; let b ← int; pure (a, b))
   expect "A"; let attrs ← listOf attrIn
   expect "F"; let faces ← listOf (listOf nat)
   expect "C"; let cells ← listOf (listOf nat)
   if (via = "raw" || via = "arrays") && (kind = "inst" || kind = "direct") then
-    pure ⟨⟨ce, cf⟩, via = "arrays", kind = "inst", k, build, verts, edges, attrs, faces, cells⟩
+    pure ⟨⟨ce, cf⟩, via = "arrays", kind = "inst", k, build, kinds, verts, edges, attrs, faces, cells⟩
   else failure
 
 def className : Nat → String
@@ -109,9 +115,44 @@ def run (q : Req) : Except String Built := do
   | "rewrapinst" => instantiate q.cfg (rewrap b1) (some b1.dim)
   | _ => .error "bad-request"
 
+/-- the raw data handed to `prepare` (before the first build), with its attributes -/
+def raw0 (q : Req) : Except String Raw := do
+  let r0 ← if q.arrays then fromArrays q.verts q.edges q.faces q.cells
+           else pure { verts := q.verts, edges := q.edges, faces := q.faces, cells := q.cells }
+  pure { r0 with eattrs := q.attrs.map (mkAttr q.edges.length) }
+
+def mkRow {β : Type} (k : String) (v : β) : Row β :=
+  if k = "tuple" then .tuple v else if k = "numpy" then .nparray v else .list v
+
+def kindChar {β : Type} : Row β → String
+  | .list _ => "l" | .tuple _ => "t" | .nparray _ => "n"
+
+/-- container types of the stored rows of the first build when every input row has container type `k`
+(row-typed model `prepareR`); only the containers the class has -/
+def kindsOf (q : Req) (k : String) : String :=
+  match raw0 q with
+  | .error e => e
+  | .ok r0 =>
+    match construct q r0 with
+    | .error e => e
+    | .ok b1 =>
+      let x0 : RawR := { verts := r0.verts, edges := r0.edges.map (mkRow k), eattrs := r0.eattrs,
+                         faces := r0.faces.map (mkRow k), cells := r0.cells.map (mkRow k) }
+      match prepareR q.cfg x0 with
+      | .error e => e
+      | .ok y =>
+        "E" ++ (if 1 ≤ b1.dim then String.join (y.edges.map kindChar) else "-") ++
+        "F" ++ (if 2 ≤ b1.dim then String.join (y.faces.map kindChar) else "-") ++
+        "C" ++ (if 3 ≤ b1.dim then String.join (y.cells.map kindChar) else "-")
+
+def kindSection (q : Req) : String :=
+  let ks := if q.kinds = "all" then ["list", "tuple", "numpy"] else if q.kinds = "numpy" then ["numpy"] else []
+  if ks.isEmpty then "K:-" else "K:" ++ ",".intercalate (ks.map (fun k => k ++ "=" ++ kindsOf q k))
+
 def handle (ts : List String) : Option String :=
   match ts with
-  | "prep" :: r => (runP req r).map (fun q => match run q with | .ok b => fmtBuilt b | .error e => e)
+  | "prep" :: r => (runP req r).map (fun q =>
+      (match run q with | .ok b => fmtBuilt b | .error e => e) ++ ";" ++ kindSection q)
   | _ => none
 
 end Mouette.DriveC02
